@@ -227,6 +227,7 @@ def r_scan_deep(repo, rep, R='R6.3'):
         # (c) generator of the leaves + enumerate
         s = ps[0]
         fun_ok = leaf_ok = None
+        yields_feature = False
         detail = []
         for st, o in SymExec(sd, inline=False).run():
             conds = [(c, pol) for c, pol, _ in st.conds]
@@ -238,7 +239,9 @@ def r_scan_deep(repo, rep, R='R6.3'):
                 fun_ok = ok if fun_ok is None else (fun_ok and ok)
                 detail.append('functor: %s' % [show(y)[:50] for y in ys])
             else:
-                ok = ys == [('yield', N(s))]
+                ok = ys in ([('yield', N(s))], [('yield', A(N(s), 'feature'))])      # the leaf itself, or its feature
+                if ys == [('yield', A(N(s), 'feature'))]:
+                    yields_feature = True
                 leaf_ok = ok if leaf_ok is None else (leaf_ok and ok)
                 detail.append('leaf: %s' % [show(y)[:50] for y in ys])
         # use: for i, leaf in enumerate(leaves(t)): results[f'{var}{i}'] = leaf.feature
@@ -252,7 +255,8 @@ def r_scan_deep(repo, rep, R='R6.3'):
                     el = ('elem', en, e[2].lineno)
                     sets = [(x[2], x[3]) for x in st.events if x[0] == 'setitem' and x[1] == N(res2)]
                     want_key = [A(N(s2), 'base'), ('unpack', el, 0)]
-                    okk = any(str_parts(k) == want_key and v == A(('unpack', el, 1), 'feature') for k, v in sets)
+                    want_val = ('unpack', el, 1) if yields_feature else A(('unpack', el, 1), 'feature')
+                    okk = any(str_parts(k) == want_key and v == want_val for k, v in sets)
                     use_ok = use_ok or (src_ok and okk)
         rep.check(bool(leaf_ok) and bool(fun_ok) and use_ok, R, w, 'scan_deep:leaf-numbering',
                   'the leaves are produced left to right and numbered by enumerate from 0 (%s)' % '; '.join(detail),
